@@ -34,6 +34,7 @@ def main() -> int:
     ap.add_argument("--tests", default="")
     ap.add_argument("--only", default="")
     ap.add_argument("--seed", default="1")
+    ap.add_argument("--prefix", default="", help="e.g. r2- for a second seeding round: ids become Cxx-r2-<i>")
     args = ap.parse_args()
     prop = args.prop.upper()
     out_root = Path(args.worktree) / "OUT"
@@ -41,7 +42,7 @@ def main() -> int:
     for d in sorted(p for p in out_root.iterdir() if p.is_dir() and (p / "patch.diff").exists()):
         if args.only and d.name not in args.only.split(","):
             continue
-        sid = f"{prop}-{d.name}"
+        sid = f"{prop}-{args.prefix}{d.name}"
         dest = VERIF / "seeded" / sid
         dest.mkdir(parents=True, exist_ok=True)
         for name in ("patch.diff", "demo.py", "notes.md"):
